@@ -92,6 +92,31 @@ theorem paired_runUnits {cf : CFacts} (hd : cf.hasDefer = true) (hs : cf.deferSt
       subst hj
       exact paired_wrapped hw _ _
 
+
+/-! ## a refused resume -/
+
+theorem paired_failedResumeUnits {cf : CFacts} (hd : cf.hasDefer = true) (hs : cf.deferStarts = true)
+    (hw : cf.wrapperOnErrorAlways = true) (sh : Shape) (w : ResumeFail) (u : UnitSpec)
+    (hu : u ∈ failedResumeUnits sh w) : Paired cf u.kind := by
+  cases w with
+  | top =>
+    simp only [failedResumeUnits, List.mem_singleton] at hu
+    subst hu
+    exact paired_graph hd hs _ _
+  | sub key =>
+    simp only [failedResumeUnits, List.mem_cons, List.mem_flatMap] at hu
+    rcases hu with rfl | ⟨n, _, hn⟩
+    · exact paired_graph hd hs _ _
+    · cases n with
+      | inner m => exact paired_topUnits hd hs hw _ _ _ u hn
+      | sub k ns =>
+        dsimp only at hn
+        split at hn
+        · simp only [List.mem_singleton] at hn
+          subst hn
+          exact paired_graph hd hs _ _
+        · exact paired_topUnits hd hs hw _ _ _ u hn
+
 /-! ## nothing interrupts in the resumed run -/
 
 theorem resumed_innerUnits (stream : Bool) (pre : List String) (n : InnerD) (u : UnitSpec)
